@@ -53,8 +53,26 @@ func NewDLEQProof(
 	vG := suite.Point().Mul(v, G)
 	vH := suite.Point().Mul(v, H)
 
-	// Challenge
+	// Challenge. The base points are part of the statement: a prover that can
+	// choose a base after the commitment (as the decrypted share in PVSS is)
+	// must not be able to keep the challenge fixed while doing so.
 	hSuite := suite.Hash()
+	if G == nil {
+		G = suite.Point().Base()
+	}
+	if H == nil {
+		H = suite.Point().Base()
+	}
+	_, err = G.MarshalTo(hSuite)
+	if err != nil {
+		return nil, nil, nil, err
+	}
+
+	_, err = H.MarshalTo(hSuite)
+	if err != nil {
+		return nil, nil, nil, err
+	}
+
 	_, err = xG.MarshalTo(hSuite)
 	if err != nil {
 		return nil, nil, nil, err
